@@ -62,6 +62,7 @@ module Check (M : MODEL) = struct
       | _ -> (i, Some (Printf.sprintf "MISMATCH model=%s kind=K1 case=%s malformed (ops/outs length differ)" M.name caseid))
     in go (M.init cfg) 0 ops outs
 
+  let last_diag = ref ""
   (* K2: linearizability (Wing-Gong with memoisation) *)
   type hop = { inv : int; ret : int; (* max_int when pending *) o : M.op; oi : int list; r : int list; pending : bool }
 
@@ -71,6 +72,7 @@ module Check (M : MODEL) = struct
     let visited = ref 0 in
     let key (don : Bytes.t) = Bytes.to_string don in
     let witness = ref [] in
+    let best = ref (-1) and best_info = ref "" in
     let rec search (don : Bytes.t) (ndone : int) (s : M.st) (acc : int list) : bool =
       if ndone = n then (witness := L.rev acc; true)
       else begin
@@ -78,6 +80,23 @@ module Check (M : MODEL) = struct
         if Hashtbl.mem memo k then false
         else begin
           incr visited;
+          if ndone > !best then begin
+            best := ndone;
+            (* describe what the model would answer for each candidate at this deepest point *)
+            let minret = ref max_int in
+            for i = 0 to n - 1 do
+              if Bytes.get don i = '0' && not h.(i).pending && h.(i).ret < !minret then minret := h.(i).ret
+            done;
+            let b = Stdlib.Buffer.create 256 in
+            for i = 0 to n - 1 do
+              if Bytes.get don i = '0' && h.(i).inv < !minret then begin
+                let (_, r') = M.step s h.(i).o in
+                Stdlib.Buffer.add_string b (Printf.sprintf " {#%d inv=%d op=[%s] impl=[%s] model=[%s]%s}" i h.(i).inv (show_ints h.(i).oi)
+                  (show_ints h.(i).r) (show_ints (M.ints_of_out r')) (if h.(i).pending then " pending" else ""))
+              end
+            done;
+            best_info := Stdlib.Buffer.contents b
+          end;
           (* earliest return among not-yet-linearized, non-pending ops *)
           let minret = ref max_int in
           for i = 0 to n - 1 do
@@ -114,6 +133,7 @@ module Check (M : MODEL) = struct
         end
       end in
     let ok = search (Bytes.make n '0') 0 (M.init cfg) [] in
+    if not ok then last_diag := Printf.sprintf "deepest=%d/%d candidates:%s" !best n !best_info;
     (ok, !visited)
 
   let parse_hist (toks : string list) : hop array =
@@ -157,7 +177,7 @@ module Check (M : MODEL) = struct
         stats_steps := !stats_steps + Array.length h;
         if not ok then begin
           incr stats_k2bad;
-          Printf.printf "MISMATCH model=%s kind=K2 case=%s not-linearizable ops=%d\n" M.name caseid (Array.length h)
+          Printf.printf "MISMATCH model=%s kind=K2 case=%s not-linearizable ops=%d %s\n" M.name caseid (Array.length h) !last_diag
         end
     | _ -> failwith ("unknown kind " ^ kind)
 
